@@ -184,7 +184,7 @@ PROPS = {
         'technique': 'totality monitor (panic recorder, supervised children, UTF-8 validator on raw render_to bytes) + hook-based stack-balance invariant at the end of every interpreter run + registry monitor (unknown names injected at every syntactic position must be rejected at registration, never discovered while rendering)',
         'claim': '(A) generated multi-template programs are rendered whole, per block and per component against contexts whose variables are rebound to ~65 hostile values (bytes incl. invalid UTF-8, 128-bit extremes, NaN/inf/-0.0, undefined inside containers, 16-element containers, 24-character strings, depth-8 nesting); '
                  '(B) 52 expression/statement shapes x all hostile operand pairs; (C) 7 kinds of unknown reference x 46 syntactic positions + 14 special positions x 6 registration modes (alone, in a child block, in an included template, in a parent, after a valid batch, one-off string) must be rejected; '
-                 '(F) 49 replacement scenarios: a valid set whose component provider / parent is then replaced by a version without the referenced name must be rejected and must still render; (G) break/continue below every nesting (2-4 levels, 1520 shapes) of for / filter section / set-block / component body / if: whatever the parser decides, an accepted shape must render with balanced stacks (hook H3 read per shape) and, where the jump crosses no capture, to the text the loop semantics give; (D) depth sweeps of nested tags 1-39 and include/extends/component chains 1-32 must render; (E) recursive shapes (block inversion + super(), include of a descendant + super(), components without base case, values nested 100k deep by a template) must end with text or an error. '
+                 '(F) 49 replacement scenarios: a valid set whose component provider / parent is then replaced by a version without the referenced name must be rejected and must still render; (G) break/continue below every nesting (2-4 levels, ~1900 shapes) of for / filter section / set-block / component body / if / the else branch of an empty loop: whatever the parser decides, an accepted shape must render with balanced stacks (hook H3 read per shape) and, where the jump crosses no capture, to the text the loop semantics give; (D) depth sweeps of nested tags 1-39 and include/extends/component chains 1-32 must render; (E) recursive shapes (block inversion + super(), include of a descendant + super(), components without base case, values nested 100k deep by a template) must end with text or an error. '
                  'Hook H3 reports the (value, loop, capture) stack sizes of every successful interpreter run: fresh states must end at (0,0,0), nested runs (blocks, super()) must be balanced.',
         'note': 'stack verdicts hold for an 8 MiB stack and the optimised verdict build; memory/time exhaustion by an accepted template is not looked for (generators cap loop products)',
         'rule': "one evaluation = one render or one registration attempt; a cell = (hostile kind, ok/err) per rebinding, (shape, kinds of v and x, outcome) for the matrix, (position, reference kind, mode) for injected references, (construct, depth class) for sweeps",
